@@ -195,6 +195,14 @@ func (s *Stats) Write() {
 	if n := heapAborts.Load(); n > 0 {
 		s.counters["runs_ended_by_memory_watchdog"] = n
 	}
+	if n := slowestCaseMs.Load(); n > 0 {
+		if s.maxes == nil {
+			s.maxes = map[string]int64{}
+		}
+		if n > s.maxes["slowest_case_ms"] {
+			s.maxes["slowest_case_ms"] = n
+		}
+	}
 	if n := wallAborts.Load(); n > 0 {
 		s.counters["runs_ended_by_wall_watchdog"] = n
 	}
@@ -256,15 +264,24 @@ func SetInflight(desc func() string) {
 	if watchdogOn {
 		inflight.Store(inflightDesc{desc})
 		inflightSeq.Add(1)
+		inflightStart = time.Now()
 	}
 }
 
 func ClearInflight() {
 	if watchdogOn {
+		if d := time.Since(inflightStart).Milliseconds(); d > slowestCaseMs.Load() {
+			slowestCaseMs.Store(d)
+		}
 		inflight.Store(inflightDesc{})
 		inflightSeq.Add(1)
 	}
 }
+
+// inflightStart / slowestCaseMs: wall time of the slowest case of this process
+// (reported in the evidence; tells how far the watchdog limits are from real cases).
+var inflightStart time.Time
+var slowestCaseMs atomic.Int64
 
 var traceFile *os.File
 var watchdogOn bool
@@ -307,7 +324,7 @@ func StartWatchdog(id string, limit time.Duration) {
 			}
 			stuck := curFn != nil && time.Since(since) > limit
 			big := curFn != nil && ms.HeapAlloc > 3<<30
-			if !big && !stuck && curFn != nil && hookEnabled && id != "C10" && time.Since(since) > abortAfter && abortedSeq != seq {
+			if !big && !stuck && curFn != nil && hookEnabled && id != "C10" && runActive.Load() && time.Since(since) > abortAfter && abortedSeq != seq {
 				// a run far beyond any legitimate duration (cases take milliseconds): end it
 				// as "over budget" once, which discards the case; if the case is still in
 				// flight at the full limit the process ends below. Not for C10, whose
@@ -316,7 +333,7 @@ func StartWatchdog(id string, limit time.Duration) {
 				abortRun()
 				wallAborts.Add(1)
 			}
-			if !big && !stuck && curFn != nil && hookEnabled && id != "C10" && ms.HeapAlloc > 1<<30 {
+			if !big && !stuck && curFn != nil && hookEnabled && id != "C10" && runActive.Load() && ms.HeapAlloc > 1<<30 {
 				// a run that has allocated a gigabyte: end it as "over budget" (the
 				// properties that judge resource use treat that as their verdict, the
 				// others discard the case) instead of losing the whole process
